@@ -462,6 +462,10 @@ type haInc struct {
 	persistFlight atomic.Int32
 	wantInterrupt atomic.Int32
 	persistFail   atomic.Bool // inject persist failures (see breakPersist)
+	// leaked counts coservice tokens that production's failure path never returns: when a checkpoint carries a
+	// persistence error, pseudonodeVotesTask.execute returns without monitor.dec. Counted when the errored
+	// checkpoint action is executed (agreement.do hook); quiescence is sum == leaked.
+	leaked atomic.Int32
 
 	// position of the player, updated from the "agreement.submitted" hook (mainLoop goroutine)
 	posMu  sync.Mutex
@@ -484,7 +488,7 @@ func (i *haInc) dec(sum uint, _ map[coserviceType]uint) { i.setSum(sum) }
 func (i *haInc) setSum(sum uint) {
 	i.cl.qmu.Lock()
 	i.sum = sum
-	if sum == 0 {
+	if sum <= uint(i.leaked.Load()) {
 		i.cl.qcond.Broadcast()
 	}
 	i.cl.qmu.Unlock()
@@ -979,6 +983,9 @@ func haInstallHooks() {
 				return
 			}
 			inc := iv.(*haInc)
+			if ca, ok := x.Action.(checkpointAction); ok && ca.Err != nil && ca.done != nil {
+				inc.leaked.Add(1)
+			}
 			if inc.isDead() {
 				return
 			}
@@ -1026,11 +1033,6 @@ func haInstallHooks() {
 			if inc.persistFail.Load() {
 				haHealDB(inc.crashDB)
 			}
-			if x.Err != nil {
-				// production's failure path (pseudonodeVotesTask.execute returning on a persistence error) does not
-				// return its coservice token; give it back here so that quiescence detection stays exact
-				haReturnToken(inc.monitor, pseudonodeCoserviceType)
-			}
 			if inc.isDead() {
 				return
 			}
@@ -1055,19 +1057,6 @@ func haInstallHooks() {
 		verifhook.SetObserver(haHookVotesB, votes(haHookVotesB))
 		verifhook.SetObserver(haHookVotesA, votes(haHookVotesA))
 	})
-}
-
-// haReturnToken decrements a coservice counter if (and only if) it is positive.
-func haReturnToken(m *coserviceMonitor, t coserviceType) {
-	m.Mutex.Lock()
-	defer m.Mutex.Unlock()
-	if m.c == nil || m.c[t] == 0 {
-		return
-	}
-	m.c[t]--
-	if m.coserviceListener != nil {
-		m.coserviceListener.dec(m.sum(), m.c)
-	}
 }
 
 // haBreakDB makes the next insert into the crash DB fail without losing the stored row
@@ -1099,7 +1088,7 @@ func (cl *haCluster) quietLocked() bool {
 		if inc == nil {
 			continue
 		}
-		if inc.sum != 0 || inc.persistFlight.Load() != 0 || inc.wantInterrupt.Load() != 0 {
+		if inc.sum != uint(inc.leaked.Load()) || inc.persistFlight.Load() != 0 || inc.wantInterrupt.Load() != 0 {
 			return false
 		}
 		if inc.svc.persistenceLoop != nil && len(inc.svc.persistenceLoop.pending) != 0 {
